@@ -176,36 +176,68 @@ Fixpoint chk_set_items (xs : list atom) (inm : bool) (cs : cstate) (prog : list 
       end
   end.
 
-Fixpoint chk (v : pv) (cs : cstate) (prog : list op) {struct v} : option (cstate * list op) :=
+(* the member loops, generic in the checker of one member *)
+Section Loops.
+  Variable chkf : pv -> cstate -> list op -> option (cstate * list op).
+
   (* list items: single (x APPEND) or batched (MARK x.. APPENDS), any number of batches *)
-  let items :=
-    fix items (xs : list pv) (inm : bool) (cs : cstate) (prog : list op) {struct xs} : option (cstate * list op) :=
-      match xs with
-      | [] => if inm then None else Some (cs, prog)
-      | x :: r =>
-          let '(inm1, p0) := if inm then (true, prog)
-                             else match prog with MARK :: p => (true, p) | _ => (false, prog) end in
-          match chk x cs p0 with
-          | Some (cs1, p1) =>
-              if inm1 then
-                match p1 with
-                | APPENDS :: p2 => items r false cs1 p2
-                | _ => items r true cs1 p1
-                end
-              else match p1 with APPEND :: p2 => items r false cs1 p2 | _ => None end
-          | None => None
-          end
-      end in
+  Fixpoint items_gen (xs : list pv) (inm : bool) (cs : cstate) (prog : list op) {struct xs} : option (cstate * list op) :=
+    match xs with
+    | [] => if inm then None else Some (cs, prog)
+    | x :: r =>
+        let '(inm1, p0) := if inm then (true, prog)
+                           else match prog with MARK :: p => (true, p) | _ => (false, prog) end in
+        match chkf x cs p0 with
+        | Some (cs1, p1) =>
+            if inm1 then
+              match p1 with
+              | APPENDS :: p2 => items_gen r false cs1 p2
+              | _ => items_gen r true cs1 p1
+              end
+            else match p1 with APPEND :: p2 => items_gen r false cs1 p2 | _ => None end
+        | None => None
+        end
+    end.
+
   (* plain sequence of values (tuple members) *)
-  let seq :=
-    fix seq (xs : list pv) (cs : cstate) (prog : list op) {struct xs} : option (cstate * list op) :=
-      match xs with
-      | [] => Some (cs, prog)
-      | x :: r => match chk x cs prog with
-                  | Some (cs1, p1) => seq r cs1 p1
-                  | None => None
+  Fixpoint seq_gen (xs : list pv) (cs : cstate) (prog : list op) {struct xs} : option (cstate * list op) :=
+    match xs with
+    | [] => Some (cs, prog)
+    | x :: r => match chkf x cs prog with
+                | Some (cs1, p1) => seq_gen r cs1 p1
+                | None => None
+                end
+    end.
+
+  (* dict items: k v SETITEM or MARK (k v).. SETITEMS, any number of batches *)
+  Fixpoint kitems_gen (kvs : list (atom * pv)) (inm : bool) (cs : cstate) (prog : list op) {struct kvs}
+    : option (cstate * list op) :=
+    match kvs with
+    | [] => if inm then None else Some (cs, prog)
+    | (k, x) :: rr =>
+        let '(inm1, p0) := if inm then (true, prog)
+                           else match prog with MARK :: p => (true, p) | _ => (false, prog) end in
+        match chk_atom k cs p0 with
+        | Some (cs2, p2) =>
+            match chkf x cs2 p2 with
+            | Some (cs3, p3) =>
+                if inm1 then
+                  match p3 with
+                  | SETITEMS :: p4 => kitems_gen rr false cs3 p4
+                  | _ => kitems_gen rr true cs3 p3
                   end
-      end in
+                else match p3 with SETITEM :: p4 => kitems_gen rr false cs3 p4 | _ => None end
+            | None => None
+            end
+        | None => None
+        end
+    end.
+End Loops.
+
+Definition opcode_args (tag : pystr) (i1 i2 j1 j2 : Z) (old new : pv) : pv :=
+  PTuple [PAtom (AStr tag); PAtom (AInt i1); PAtom (AInt i2); PAtom (AInt j1); PAtom (AInt j2); old; new].
+
+Fixpoint chk (v : pv) (cs : cstate) (prog : list op) {struct v} : option (cstate * list op) :=
   match prog with
   | [] => None
   | o :: r =>
@@ -223,54 +255,34 @@ Fixpoint chk (v : pv) (cs : cstate) (prog : list op) {struct v} : option (cstate
               match o with
               | EMPTY_LIST =>
                   match chk_put cs v r with
-                  | Some (cs1, p1) => items xs false cs1 p1
+                  | Some (cs1, p1) => items_gen chk xs false cs1 p1
                   | None => None
                   end
               | _ => None
               end
           | PTuple xs =>
+              let small :=
+                match seq_gen chk xs cs prog with
+                | Some (cs1, TUPLE1 :: p1) => if Nat.eqb (List.length xs) 1 then chk_put cs1 v p1 else None
+                | Some (cs1, TUPLE2 :: p1) => if Nat.eqb (List.length xs) 2 then chk_put cs1 v p1 else None
+                | Some (cs1, TUPLE3 :: p1) => if Nat.eqb (List.length xs) 3 then chk_put cs1 v p1 else None
+                | _ => None
+                end in
               match o with
               | EMPTY_TUPLE => match xs with [] => chk_put cs v r | _ => None end
               | MARK =>
-                  match seq xs cs r with
+                  (* the MARK opens the tuple - or its first member (TUPLE1-3 form) *)
+                  match seq_gen chk xs cs r with
                   | Some (cs1, TUPLE :: p1) => chk_put cs1 v p1
-                  | _ => None
+                  | _ => small
                   end
-              | _ =>
-                  match seq xs cs prog with
-                  | Some (cs1, TUPLE1 :: p1) => if Nat.eqb (List.length xs) 1 then chk_put cs1 v p1 else None
-                  | Some (cs1, TUPLE2 :: p1) => if Nat.eqb (List.length xs) 2 then chk_put cs1 v p1 else None
-                  | Some (cs1, TUPLE3 :: p1) => if Nat.eqb (List.length xs) 3 then chk_put cs1 v p1 else None
-                  | _ => None
-                  end
+              | _ => small
               end
           | PDict kvs =>
               match o with
               | EMPTY_DICT =>
                   match chk_put cs v r with
-                  | Some (cs1, p1) =>
-                      (fix kitems (kvs : list (atom * pv)) (inm : bool) (cs : cstate) (prog : list op) {struct kvs}
-                         : option (cstate * list op) :=
-                         match kvs with
-                         | [] => if inm then None else Some (cs, prog)
-                         | (k, x) :: rr =>
-                             let '(inm1, p0) := if inm then (true, prog)
-                                                else match prog with MARK :: p => (true, p) | _ => (false, prog) end in
-                             match chk_atom k cs p0 with
-                             | Some (cs2, p2) =>
-                                 match chk x cs2 p2 with
-                                 | Some (cs3, p3) =>
-                                     if inm1 then
-                                       match p3 with
-                                       | SETITEMS :: p4 => kitems rr false cs3 p4
-                                       | _ => kitems rr true cs3 p3
-                                       end
-                                     else match p3 with SETITEM :: p4 => kitems rr false cs3 p4 | _ => None end
-                                 | None => None
-                                 end
-                             | None => None
-                             end
-                         end) kvs false cs1 p1
+                  | Some (cs1, p1) => kitems_gen chk kvs false cs1 p1
                   | None => None
                   end
               | _ => None
@@ -312,8 +324,7 @@ Fixpoint chk (v : pv) (cs : cstate) (prog : list op) {struct v} : option (cstate
                       | Some (cs3, p3) =>
                           match chk new cs3 p3 with
                           | Some (cs4, TUPLE :: p4) =>
-                              match chk_put cs4 (PTuple [PAtom (AStr tag); PAtom (AInt i1); PAtom (AInt i2);
-                                                          PAtom (AInt j1); PAtom (AInt j2); old; new]) p4 with
+                              match chk_put cs4 (opcode_args tag i1 i2 j1 j2 old new) p4 with
                               | Some (cs5, NEWOBJ :: p5) => chk_put cs5 v p5
                               | _ => None
                               end
@@ -332,7 +343,7 @@ Fixpoint chk (v : pv) (cs : cstate) (prog : list op) {struct v} : option (cstate
                   | Some (cs2, EMPTY_LIST :: p2) =>
                       match chk_put cs2 (PList xs) p2 with
                       | Some (cs3, p3) =>
-                          match items xs false cs3 p3 with
+                          match items_gen chk xs false cs3 p3 with
                           | Some (cs4, BUILD :: p4) => Some (cs4, p4)
                           | _ => None
                           end
